@@ -1,13 +1,16 @@
 """C19 — strategies run by BacktestManager do not influence one another (demeter/core/backtest.py).
 
-Oracle: the real BacktestManager runs 1-4 scripted strategies (some mutate market state: add liquidity, buy, sell, remove…)
-over a generated configuration (one or two Uniswap-v3 markets, random-walk minute data) with threads in {1, 2, 4} and in
-several orders; every strategy dumps its account history, final positions, balances and action log in finalize(); each dump
-must equal, exactly, the dump of the same strategy run alone on a fresh configuration.  Every manager run happens in a fresh
-subprocess (`multiprocessing.set_start_method` is once-per-process).
-Correspondence: the manager model (Demeter.Manager: sequential path threads the configuration's market state — or a copy of it,
-as the code does now — through the strategies; pooled tasks get copies) is run on the projection "position-count effect" of the
-same scripts and must predict every strategy's final number of positions.
+Oracle: the real BacktestManager runs 1-4 scripted strategies over a generated configuration — market mixes out of Uniswap-v3,
+Aave, Deribit options, Squeeth (+ its oSQTH pool) and GMX v1, price frames given as floats or as all-Decimal frames — with
+threads in {1, 2, 4} and in several orders.  Some strategies trade (also the same option in the same hourly bar with sizes that
+exhaust a price level), some write into everything a strategy can reach (self.prices, the cells of self.data / market.data
+including the lists nested inside cells, the market status rows, the assets of their own account).  Every strategy dumps its
+account history, final positions, balances, action log and what it *found* in the objects it was handed; each dump must equal,
+exactly, the dump of the same strategy run alone by a plain Actuator on freshly built objects, and so must a manager run of
+that strategy alone.  Every manager run happens in a fresh subprocess (`multiprocessing.set_start_method` is once-per-process).
+Correspondence: the manager model (Demeter.Manager: which of the objects a backtest receives are copies, per layer: market
+objects, frame columns, frame values, objects nested in cells, price frame) is run on the projection "what did each strategy
+find" of the same scripts and must predict it for every strategy.
 """
 from __future__ import annotations
 
@@ -19,23 +22,31 @@ import subprocess
 import sys
 import tempfile
 from decimal import Decimal
+from fractions import Fraction
 
 PROPERTY = "C19"
 LEAN_MODULES = ["Proofs.C19"]
 DRIVERS = ["driver_metrics"]
-RULE = ("1-4 scripted strategies out of 14 behaviours (idle, add liquidity once/twice, add then remove, buy, sell, rebalance, add on the second "
-        "Uniswap market, failing operation, Aave supply, Aave supply+borrow, add an indicator column and trade on it, act on such a column if "
-        "present, overwrite the data frame in place) over the market mixes {uni}, {uni, uni}, {uni, aave}, threads in "
-        "{1,2,4} (fork; some pooled cases through the Windows branch), identity/reversed orders and all 6 orders of one triple (all orders in the thorough tier), 12-40 bars, plus 6 manager-level "
-        "edge scenarios; bucket = (path sequential/pooled, threads, number of strategies, market count, multiset of behaviours, order kind)")
+RULE = ("1-4 scripted strategies out of 29 behaviours — trading: idle, add liquidity once/twice, add then remove, buy, sell, rebalance, add on a second "
+        "Uniswap market, failing operation, Aave supply, Aave supply+borrow, option buy / buy+sell / two buys of the same instrument in the same hourly "
+        "bar (sizes: exactly the best level, more than it, small), Squeeth long / short vault, GLP buy / buy+sell; acting on what they see: add an "
+        "indicator column and trade on it, act on such a column if present, watcher (notes prices, status rows, best ask and trades by them); writing "
+        "into what they were handed: overwrite frame values in place, multiply a column of self.prices and set a cell by position, overwrite cells of "
+        "every market's frame by position (and replace an order-book cell), decrement order-book levels nested in cells of self.data in place, write "
+        "through snapshot.market_status / market.market_status (rows and nested lists), change the balances of their own account — over the market "
+        "mixes {uni}, {uni,uni}, {uni,aave}, {deribit}, {uni,deribit}, {oSQTH pool, squeeth}, {gmx v1}, price frames float / all-Decimal, threads in "
+        "{1,2,4} (fork; some pooled cases through the Windows branch), identity/reversed orders and all 6 orders of one triple (all orders in the "
+        "thorough tier), plus 6 manager-level edge scenarios; bucket = (path, threads, number of strategies, market mix, price kind, multiset of "
+        "behaviours, order kind)")
 TRUSTED = [
     "process scheduling, fork and pickling are runtime behaviour of CPython/the OS: that part is measured (every pooled case is executed), the "
     "theorems cover the manager's data flow for every assignment of tasks to workers",
-    "a strategy (with its Actuator) is modelled as an arbitrary transformer of the market objects and data frames it is handed; copy.deepcopy "
-    "and DataFrame.copy(deep=False) under pandas copy-on-write (pandas >= 3, the installed version) are assumed to give independent objects — "
-    "the harness checks after every run that the manager's own frames and configured markets are untouched",
-    "module-level / class-level state of demeter (logging, decimal context, caches) is outside the model; it is exercised only through the "
-    "generated behaviours",
+    "a strategy (with its Actuator and markets) is modelled as an arbitrary transformer of the objects it is handed, layer by layer; that "
+    "copy.deepcopy, DataFrame.copy(deep=False) under pandas copy-on-write (pandas >= 3, the installed version) and DataFrame.map give independent "
+    "objects of the respective layer is assumed — the harness checks after every run that the manager's own frames (with the lists nested in their "
+    "cells), its price frame and its configured markets are untouched",
+    "module-level / class-level state (of demeter: logging, decimal context, caches; of the strategy classes themselves) is outside the model and "
+    "outside the generated behaviours: a strategy that keeps state in its class or module is not covered",
 ]
 ASSUMPTIONS = ["pandas copy-on-write is on (pandas >= 3); for pandas 2 the partial theorem needs strategies that do not overwrite frame values in place",
                "start method fork (Linux); the Windows branch is executed by patching the module's platform name inside the harness's worker process"]
@@ -46,21 +57,46 @@ try:
     COW = int(_pd.__version__.split(".")[0]) >= 3      # copy-on-write is always on from pandas 3
 except Exception:  # noqa: BLE001
     COW = True
-BEHAVIOURS = ["idle", "add1", "add2", "addremove", "buy", "sell", "rebalance", "add_b", "failing", "aave_s", "aave_sb", "indicator", "follower", "vandal"]
-# effect of a behaviour on the number of open positions on the first market and on the second market (Uniswap positions, or Aave
-# supplies when the second market is Aave) and on the number of indicator columns in its data frame: the projection the manager model is run on
-POS_EFFECT = {"idle": (0, 0, 0), "add1": (1, 0, 0), "add2": (2, 0, 0), "addremove": (0, 0, 0), "buy": (0, 0, 0), "sell": (0, 0, 0),
-              "rebalance": (0, 0, 0), "add_b": (0, 1, 0), "failing": (0, 0, 0), "aave_s": (0, 1, 0), "aave_sb": (0, 1, 0),
-              "indicator": (0, 0, 1), "follower": (0, 0, 0), "vandal": (1, 0, 0)}
-MARKET_SETS = [["uni_a"], ["uni_a", "uni_b"], ["uni_a", "aave"]]
+
+MARKET_SETS = [["uni_a"], ["uni_a", "uni_b"], ["uni_a", "aave"], ["deribit"], ["uni_a", "deribit"], ["uni_sq", "squeeth"], ["gmx"]]
+CALL, PUT = "ETH-22SEP23-1650-C", "ETH-22SEP23-1600-P"
+T0 = "2023-08-15 00:00:00"
+GENERIC = ["idle", "watcher", "mut_prices", "mut_data", "mut_nested", "mut_status", "mut_assets"]
+UNI = ["add1", "add2", "addremove", "buy", "sell", "rebalance", "failing", "indicator", "follower", "vandal"]
+OPT = ["opt_buy", "opt_round", "opt_twice"]
+BEHAVIOURS = GENERIC + UNI + ["add_b", "aave_s", "aave_sb"] + OPT + ["sq_buy", "sq_short", "glp_buy", "glp_round"]
+
+
+def applicable(markets):
+    out = list(GENERIC)
+    if "uni_a" in markets:
+        out += UNI
+    if "uni_b" in markets:
+        out += ["add_b"]
+    if "aave" in markets:
+        out += ["aave_s", "aave_sb"]
+    if "deribit" in markets:
+        out += OPT + OPT
+    if "squeeth" in markets:
+        out += ["sq_buy", "sq_short", "add1", "sq_buy", "sq_short"]
+    if "gmx" in markets:
+        out += ["glp_buy", "glp_round", "glp_buy", "glp_round"]
+    return out
+
+
+def best_ask_size(seed):
+    return 3 + seed % 5
 
 
 # ============================================================================================== worker side
+PRISTINE = None      # deep copies of the frames / converted price frame the manager was given (forked workers inherit it)
+
+
 def make_data(pool, market, bars, seed):
     import random
     import pandas as pd
     rng = random.Random(seed)
-    index = pd.date_range("2023-08-15 00:00:00", periods=bars, freq="min")
+    index = pd.date_range(T0, periods=bars, freq="min")
     tick = 201000 + rng.randint(-300, 300)      # usdc(6)/eth(18), usdc quote: about 1860 usdc per eth
     rows = []
     for _ in range(bars):
@@ -79,7 +115,7 @@ def make_aave_data(bars, seed):
     import random
     import pandas as pd
     rng = random.Random(seed)
-    index = pd.date_range("2023-08-15 00:00:00", periods=bars, freq="min")
+    index = pd.date_range(T0, periods=bars, freq="min")
     li, bi, rows = Decimal("1.01"), Decimal("1.03"), []
     for _ in range(bars):
         li += Decimal(rng.randint(1, 30)) / Decimal(10 ** 6)
@@ -89,62 +125,211 @@ def make_aave_data(bars, seed):
     return pd.DataFrame(rows, index=index)
 
 
+def make_deribit_data(hours, seed):
+    """(time, instrument_name)-indexed frame as load_deribit_option_data builds it; asks / bids cells are Python lists of [price, amount]"""
+    import pandas as pd
+    s1 = float(best_ask_size(seed))
+    rows = []
+    for h, hour in enumerate(pd.date_range(T0, periods=hours, freq="1h")):
+        common = dict(time=hour, state="open", expiry_time=pd.Timestamp("2023-09-22 08:00:00"), underlying_price=1650.0 + h)
+        rows.append(dict(common, instrument_name=CALL, type="CALL", strike_price=1650, gamma=0.00342, delta=0.52, mark_price=0.0287,
+                         asks=[[0.0285, s1], [0.029, 605.0 + h], [0.0295, 200.0]], bids=[[0.028, s1 + 1], [0.0275, 300.0], [0.027, 40.0]]))
+        rows.append(dict(common, instrument_name=PUT, type="PUT", strike_price=1600, gamma=0.0029, delta=-0.32, mark_price=0.0180,
+                         asks=[[0.0185, 30.0], [0.019, 100.0]], bids=[[0.0175, 40.0], [0.017, 100.0]]))
+    return pd.DataFrame(rows).set_index(["time", "instrument_name"])
+
+
+def make_squeeth_data(bars, seed):
+    import random
+    import pandas as pd
+    rng = random.Random(seed)
+    index = pd.date_range(T0, periods=bars, freq="min")
+    nf, weth, osqth, rows = Decimal("0.3"), Decimal(1800), Decimal("0.1"), []
+    for _ in range(bars):
+        nf -= Decimal(rng.randint(1, 9)) / Decimal(10 ** 7)
+        weth += Decimal(rng.randint(-200, 200)) / Decimal(100)
+        osqth += Decimal(rng.randint(-20, 20)) / Decimal(10 ** 5)
+        rows.append(dict(norm_factor=nf, WETH=weth, OSQTH=osqth))
+    return pd.DataFrame(rows, index=index)
+
+
+def make_sq_pool_data(market, bars, seed):
+    import random
+    import pandas as pd
+    rng = random.Random(seed + 17)
+    index = pd.date_range(T0, periods=bars, freq="min")
+    tick, rows = 23000 + rng.randint(-50, 50), []       # weth(18)/osqth(18), weth quote: about 0.1 weth per osqth
+    for _ in range(bars):
+        o = tick
+        tick += rng.randint(-6, 6)
+        rows.append(dict(netAmount0=0, netAmount1=0, closeTick=tick, openTick=o, lowestTick=min(o, tick), highestTick=max(o, tick),
+                         inAmount0=rng.randint(10 ** 17, 10 ** 18), inAmount1=rng.randint(10 ** 18, 10 ** 19),
+                         currentLiquidity=Decimal(rng.randint(10 ** 20, 10 ** 21))))
+    df = pd.DataFrame(rows, index=index)
+    market.add_statistic_column(df)
+    return df
+
+
+def make_gmx_data(bars, seed):
+    import random
+    import numpy as np
+    import pandas as pd
+    rng = random.Random(seed)
+    index = pd.date_range(T0, periods=bars, freq="min")
+    rows, aum, glp = [], 5 * 10 ** 38, 4 * 10 ** 26
+    for _ in range(bars):
+        aum += rng.randint(-10 ** 34, 10 ** 34)
+        wp = int(1800 * 10 ** 6 + rng.randint(-10 ** 6, 10 ** 6)) * 10 ** 24
+        usdg = 4 * 10 ** 26
+        rows.append(dict(glp=Decimal(glp), aum=Decimal(aum), usdg=usdg, interval=np.float64(10 ** 13 + rng.randint(0, 10 ** 12)),
+                         glp_price=(Decimal(aum) / Decimal(10 ** 30)) / (Decimal(glp) / Decimal(10 ** 18)),
+                         wavax_price=Decimal(29 * 10 ** 30), weth_price=Decimal(wp), weth_usdg=usdg * 3 // 10 + rng.randint(0, 10 ** 22),
+                         weth_weight=np.int64(30000), usdc_price=10 ** 30, usdc_usdg=usdg * 7 // 10, usdc_weight=np.int64(70000)))
+    return pd.DataFrame({c: pd.Series([r[c] for r in rows], index=index, dtype=object) for c in rows[0]})
+
+
 def frame_hash(df):
     h = hashlib.sha1()
     h.update(",".join(map(str, df.columns)).encode())
-    h.update(df.to_csv().encode())
+    h.update(df.to_csv().encode())          # lists nested in cells are written out element by element
     return h.hexdigest()
 
 
+def canon(x, depth=0):
+    """canonical JSON-able form of positions / vaults / balances"""
+    import dataclasses
+    if depth > 6:
+        return str(x)
+    if isinstance(x, dict):
+        return sorted([[str(k), canon(v, depth + 1)] for k, v in x.items()], key=lambda kv: kv[0])
+    if isinstance(x, (list, tuple, set)):
+        return [canon(v, depth + 1) for v in x]
+    if dataclasses.is_dataclass(x) and not isinstance(x, type):
+        return canon({f.name: getattr(x, f.name) for f in dataclasses.fields(x)}, depth + 1)
+    if hasattr(x, "__dict__") and not callable(x) and type(x).__module__.startswith("demeter"):
+        return canon({k: v for k, v in vars(x).items() if not k.startswith("_")}, depth + 1)
+    return str(x)
+
+
+STATE_ATTRS = ("positions", "supplies", "borrows", "vault", "glp_amount", "reward", "balance")
+
+
+def count_positions(m):
+    for a in ("positions", "supplies", "vault"):
+        if hasattr(m, a):
+            return len(getattr(m, a))
+    return 1 if getattr(m, "glp_amount", 0) else 0
+
+
 def dump_state(strategy):
-    """what the property compares: account history, final positions, balances, action log"""
+    """what the property compares: account history, final positions, balances, action log (+ what the strategy found at the start)"""
     out = {}
     df = strategy.account_status_df
     out["account"] = [[str(ix)] + [str(v) for v in row] for ix, row in zip(df.index, df.itertuples(index=False))]
     out["columns"] = [str(c) for c in df.columns]
     out["positions"] = {}
     for mi, m in strategy.broker.markets.items():
-        if hasattr(m, "positions"):
-            out["positions"][mi.name] = sorted([str(k), str(v.liquidity), str(v.pending_amount0), str(v.pending_amount1)] for k, v in m.positions.items())
-        else:   # Aave: scaled supplies / borrows as held, and what the views report
-            out["positions"][mi.name] = sorted([["supply", str(k), str(v)] for k, v in m.supplies.items()])
-            out["positions"][mi.name + ".borrows"] = sorted([["borrow", str(k), str(v)] for k, v in m.borrows.items()])
+        out["positions"][mi.name] = {a: canon(getattr(m, a)) for a in STATE_ATTRS if hasattr(m, a)}
     out["data_columns"] = {mi.name: [str(c) for c in m.data.columns] for mi, m in strategy.broker.markets.items()}
     out["assets"] = sorted([k.name, str(v.balance)] for k, v in strategy.broker.assets.items())
     out["actions"] = [[type(a).__name__, str(getattr(a, "market", "")), str(getattr(a, "timestamp", ""))] for a in strategy.actions]
     out["notes"] = list(strategy.notes)
+    out["found"] = strategy.found
     return out
+
+
+def nested_columns(df):
+    return [c for c in df.columns if len(df) and isinstance(df[c].iloc[0], list)]
+
+
+def probe_found(strategy):
+    """what the objects handed to this backtest look like, against the pristine copies: positions already in the markets, extra
+    columns, cells whose value differs, depth missing from order-book lists, price cells that differ, market cross-references"""
+    f = {"pos": [], "cols": 0, "vals": 0, "cells": Fraction(0), "prices": 0, "link": True}
+    for mi, m in strategy.broker.markets.items():
+        f["pos"].append(count_positions(m))
+        pr, df = PRISTINE["frames"][mi.name], m.data
+        if len(df) != len(pr):          # resampled (interval != 1min): `.resample(…).first()` keeps the first row of every bucket
+            pr = pr.loc[pr.index.intersection(df.index)]
+        f["cols"] += len([c for c in df.columns if c not in pr.columns])
+        nested = nested_columns(pr)
+        for c in pr.columns:
+            if c not in df.columns or len(df) != len(pr):
+                f["vals"] += len(pr)
+            elif c in nested:
+                for a, b in zip(df[c], pr[c]):
+                    if not isinstance(a, list) or [l[0] for l in a] != [l[0] for l in b]:
+                        f["vals"] += 1
+                    else:
+                        f["cells"] += sum(Fraction(y[1]) - Fraction(x[1]) for x, y in zip(a, b))
+            else:
+                a, b = df[c], pr[c]
+                f["vals"] += int((~((a == b) | (a.isna() & b.isna()))).sum())
+        pool = getattr(m, "_squeeth_uni_pool", None)
+        if pool is not None:
+            f["link"] = f["link"] and any(pool is x for x in strategy.broker.markets.values())
+    pp, p = PRISTINE["price"], strategy.prices
+    if len(p) != len(pp):
+        pp = pp.loc[pp.index.intersection(p.index)]
+    for c in pp.columns:
+        f["prices"] += len(pp) if c not in p.columns or len(p) != len(pp) else int((p[c] != pp[c]).sum())
+    f["prices"] += len([c for c in p.columns if c not in pp.columns and c != "USD"])
+    f["cells"] = str(f["cells"])
+    return f
 
 
 def make_strategy_class():
     from demeter import Strategy
 
     class Scripted(Strategy):
-        def __init__(self, sid, behaviour, out_dir, market_names, tokens=None):
+        def __init__(self, sid, behaviour, out_dir, market_names, tokens=None, arg=None):
             super().__init__()
-            self.sid, self.behaviour, self.out_dir, self.market_names = sid, behaviour, out_dir, market_names
+            self.sid, self.behaviour, self.out_dir, self.market_names, self.arg = sid, behaviour, out_dir, market_names, arg
             self.tokens = tokens or {}
             self.notes = []
+            self.found = None
 
         def _m(self, k):
+            name = k if isinstance(k, str) else self.market_names[min(k, len(self.market_names) - 1)]
             for mi, m in self.broker.markets.items():
-                if mi.name == self.market_names[min(k, len(self.market_names) - 1)]:
+                if mi.name == name:
                     return m
             raise KeyError(k)
 
+        def _has(self, name):
+            return name in self.market_names
+
         def _try(self, what, f):
             try:
-                f()
-                self.notes.append(what + ":ok")
+                r = f()
+                self.notes.append(what + ":ok" + ("" if r is None else ":" + json.dumps(canon(r))[:300]))
             except Exception as e:  # noqa: BLE001
                 self.notes.append(what + ":" + type(e).__name__)
 
         def initialize(self):
-            if self.behaviour == "indicator":
+            import pandas as pd
+            self.found = probe_found(self)
+            b = self.behaviour
+            if self._has("deribit") and (b in OPT or b == "watcher"):
+                self._try("deposit", lambda: self._m("deribit").deposit(Decimal(5)))
+            if b == "indicator":
                 # the documented way to attach an indicator: Strategy.add_column writes a column into the market's data frame
-                import pandas as pd
                 m = self._m(0)
                 self.add_column(m, "sig", pd.Series(index=m.data.index, data=[k % 3 for k in range(len(m.data.index))]))
+            elif b == "mut_prices":
+                c = [x for x in self.prices.columns if x != "USD"][0]
+                self.prices[c] = self.prices[c] * Decimal("0.98")          # values its holdings with a haircut
+            elif b == "mut_nested":
+                # in-place writes into the Python lists stored inside cells of the frames it was handed (self.data)
+                def dig():
+                    n = 0
+                    for mi, df in self.data.items():
+                        for c in nested_columns(df):
+                            for cell in df[c]:
+                                cell[0][1] -= 1.0
+                                n += 1
+                    return n
+                self._try("dig", dig)
 
         def on_bar(self, snapshot):
             b, r = self.behaviour, snapshot.row_id
@@ -155,6 +340,8 @@ def make_strategy_class():
                 base = self.broker.get_token_balance(m.base_token) * Decimal(frac)
                 quote = self.broker.get_token_balance(m.quote_token) * Decimal(frac)
                 m.add_liquidity_by_tick(t - width, t + width, base, quote)
+            # Deribit trades only on bars of its hourly grid: with minute bars (a Uniswap market is configured too) bars 0 and 60
+            o1, o2 = (1, 2) if self.market_names == ["deribit"] else ((0, 60) if self._has("deribit") else (-1, -1))
             if b == "indicator" and r in (2, 5):
                 sig = snapshot.market_status[self._m(0).market_info].sig
                 self._try(f"sig{sig}", lambda: self._m(0).buy(Decimal("0.2")) if sig == 2 else self._m(0).sell(Decimal("0.1")))
@@ -173,6 +360,56 @@ def make_strategy_class():
                     self._try("saw-sig", lambda: self._m(0).buy(Decimal("0.5")))
                 else:
                     self.notes.append("no-sig")
+            elif b == "mut_prices" and r == 2:
+                def cell():
+                    self.prices.iloc[-1, 0] = Decimal(1)
+                self._try("price-cell", cell)
+            elif b == "mut_data" and r == 1:
+                # positional writes into every frame it was handed: later rows of one column, and a whole order-book cell
+                def smash():
+                    for mi, df in self.data.items():
+                        col = {"uni_a": "closeTick", "uni_b": "closeTick", "uni_sq": "closeTick", "deribit": "mark_price", "squeeth": "OSQTH",
+                               "gmx": "glp_price"}.get(mi.name)
+                        j = df.columns.get_loc(col) if col is not None else 0
+                        k = min(3, len(df) - 1)
+                        old = df.iloc[k:, j]
+                        df.iloc[k:, j] = old + 700 if col == "closeTick" else old * type(old.iloc[0])("1.01")
+                        for c in nested_columns(df):
+                            df.iat[len(df) - 1, df.columns.get_loc(c)] = [[0.5, 1.0]]
+                self._try("smash", smash)
+            elif b == "mut_status" and r == 1:
+                # writes through the status objects: the row handed in the snapshot and the market's own, and the lists inside them
+                def poke():
+                    for mi, m in self.broker.markets.items():
+                        for ms in (snapshot.market_status[mi], m.market_status.data):
+                            if hasattr(ms, "columns"):          # Deribit: a frame of the hour's instruments
+                                if CALL in ms.index:
+                                    ms.loc[CALL, "asks"][0][1] -= 0.5
+                                    ms.loc[CALL, "bids"][0][1] -= 0.5
+                            elif "closeTick" in ms.index:
+                                ms["closeTick"] = ms["closeTick"] + 3
+                self._try("poke", poke)
+            elif b == "mut_assets" and r == 1:
+                def pay():
+                    t = next(iter(self.broker.assets.keys()))
+                    self.assets[t].balance += Decimal(7)
+                    self.broker.add_to_balance(t, Decimal(3))
+                self._try("pay", pay)
+            elif b == "watcher" and r == (min(3, len(self.prices) - 1) if o2 < 60 else 60):
+                # records what it sees and trades by it: anything written by somebody else into prices / data / status shows up here
+                self.notes.append("price:" + ",".join(str(x) for x in snapshot.prices.values))
+                for mi, m in self.broker.markets.items():
+                    st = snapshot.market_status[mi]
+                    if mi.name == "deribit":
+                        best = st.loc[CALL, "asks"][0] if CALL in st.index else None
+                        self.notes.append(f"best-ask:{best}:mark:{st.loc[CALL, 'mark_price'] if CALL in st.index else None}")
+                        self._try("buy", lambda: [[str(o.price), str(o.amount)] for o in m.buy(CALL, Decimal(2))[0]])
+                    elif "closeTick" in getattr(st, "index", []):
+                        self.notes.append(f"tick:{st.closeTick}")
+                        if mi.name != "uni_sq":
+                            self._try("buy", lambda: m.buy(Decimal(int(st.closeTick) % 7 + 1) / 10))
+                    else:
+                        self.notes.append("row:" + ",".join(str(x) for x in list(st.values)[:6]))
 
             if b == "add1" and r == 1:
                 self._try("add", lambda: add(0, 600, "0.5"))
@@ -194,12 +431,27 @@ def make_strategy_class():
             elif b == "failing" and r == 1:
                 self._try("sell", lambda: self._m(0).sell(Decimal("100000")))
             elif b == "aave_s" and r == 3:
-                self._try("supply", lambda: self._m(1).supply(self.tokens["usdc"], Decimal("2000"), True))
+                self._try("supply", lambda: self._m("aave").supply(self.tokens["usdc"], Decimal("2000"), True))
             elif b == "aave_sb":
                 if r == 1:
-                    self._try("supply", lambda: self._m(1).supply(self.tokens["weth"], Decimal("3"), True))
+                    self._try("supply", lambda: self._m("aave").supply(self.tokens["weth"], Decimal("3"), True))
                 elif r == 2:
-                    self._try("borrow", lambda: self._m(1).borrow(self.tokens["usdc"], Decimal("800")))
+                    self._try("borrow", lambda: self._m("aave").borrow(self.tokens["usdc"], Decimal("800")))
+            # options: everybody trades the same instrument in the same hourly bar
+            elif b in OPT and r == o1:
+                self._try("opt-buy", lambda: [[str(o.price), str(o.amount)] for o in self._m("deribit").buy(CALL, Decimal(self.arg))[0]])
+            elif b == "opt_round" and r == o2:
+                self._try("opt-sell", lambda: [[str(o.price), str(o.amount)] for o in self._m("deribit").sell(CALL, Decimal(self.arg))[0]])
+            elif b == "opt_twice" and r == o2:
+                self._try("opt-buy", lambda: [[str(o.price), str(o.amount)] for o in self._m("deribit").buy(CALL, Decimal(self.arg))[0]])
+            elif b == "sq_buy" and r == 2:
+                self._try("sq-buy", lambda: self._m("squeeth").buy_squeeth(eth_amount=Decimal(2)))
+            elif b == "sq_short" and r == 9:
+                self._try("sq-short", lambda: self._m("squeeth").open_deposit_mint_by_collat_rate(Decimal(3), Decimal("2.5")))
+            elif b in ("glp_buy", "glp_round") and r == 1:
+                self._try("glp-buy", lambda: self._m("gmx").buy_glp(self.tokens["weth"], Decimal("1.5")))
+            elif b == "glp_round" and r == 3:
+                self._try("glp-sell", lambda: self._m("gmx").sell_glp(self.tokens["usdc"], self._m("gmx").glp_amount / 2))
 
         def finalize(self):
             with open(os.path.join(self.out_dir, self.sid + ".json"), "w") as f:
@@ -210,56 +462,133 @@ def make_strategy_class():
 Scripted = None
 
 
+def build_world(spec):
+    """configuration + data of one case, built from the spec alone (deterministic): fresh objects on every call"""
+    import pandas as pd
+    from demeter import TokenInfo, MarketInfo, MarketTypeEnum, BacktestData, StrategyConfig
+    from demeter.uniswap import UniLpMarket, UniV3Pool
+    from demeter.uniswap.helper import get_price_from_data
+    repo = os.environ.get("DEMETER_REPO", "/repo")
+    usdc, eth, weth, osqth = TokenInfo("usdc", 6), TokenInfo("eth", 18), TokenInfo("weth", 18), TokenInfo("osqth", 18)
+    names, bars, seed = spec["markets"], spec["bars"], spec["data_seed"]
+    markets, frames, price = [], {}, None
+    assets = {}
+    if "uni_a" in names:
+        assets.update({usdc: Decimal(spec["usdc"]), eth: Decimal(spec["eth"])})
+    pool = UniV3Pool(usdc, eth, 0.05, usdc)
+    for name in names:
+        if name in ("uni_a", "uni_b"):
+            m = UniLpMarket(MarketInfo(name), pool)
+            frames[m.market_info] = make_data(pool, m, bars, seed)   # same price path on every market: one price table
+        elif name == "aave":
+            from demeter.aave import AaveV3Market
+            m = AaveV3Market(market_info=MarketInfo(name, MarketTypeEnum.aave_v3), tokens=[weth, usdc],
+                             risk_parameters_path=os.path.join(repo, "tests", "aave_risk_parameters", "demo.csv"))
+            for j, t in enumerate((weth, usdc)):
+                m.set_token_data(t, make_aave_data(bars, seed + j))
+            frames[m.market_info] = m.data
+            assets[weth] = Decimal("5")
+        elif name == "deribit":
+            from demeter.deribit import DeribitOptionMarket
+            m = DeribitOptionMarket(MarketInfo(name, MarketTypeEnum.deribit_option), DeribitOptionMarket.ETH)
+            hours = bars if names == ["deribit"] else (bars + 59) // 60
+            frames[m.market_info] = make_deribit_data(hours, seed)
+            assets[eth] = Decimal(spec["eth"])
+        elif name == "uni_sq":
+            m = UniLpMarket(MarketInfo(name, MarketTypeEnum.uniswap_v3), UniV3Pool(weth, osqth, 0.3, weth))
+            frames[m.market_info] = make_sq_pool_data(m, bars, seed)
+        elif name == "squeeth":
+            from demeter.squeeth import SqueethMarket
+            m = SqueethMarket(MarketInfo(name, MarketTypeEnum.squeeth), markets[names.index("uni_sq")])    # refers to the pool market
+            frames[m.market_info] = make_squeeth_data(bars, seed)
+            assets[weth] = Decimal(spec["eth"])
+        elif name == "gmx":
+            from demeter.gmx import GmxMarket
+            m = GmxMarket(MarketInfo(name, MarketTypeEnum.gmx_v1), tokens=[weth, usdc])
+            frames[m.market_info] = make_gmx_data(bars, seed)
+            assets.update({weth: Decimal(spec["eth"]), usdc: Decimal(spec["usdc"])})
+        else:
+            raise ValueError(name)
+        markets.append(m)
+    if "uni_a" in names:
+        pdf, quote = get_price_from_data(frames[markets[names.index("uni_a")].market_info], pool)
+        if weth in assets:
+            pdf[weth.name] = pdf[eth.name]
+    elif "squeeth" in names:
+        from demeter.squeeth.helper import get_price_from_data as sq_price
+        pdf, quote = sq_price(frames[markets[names.index("squeeth")].market_info]), None
+    elif "gmx" in names:
+        from demeter.gmx.helper import get_price_from_data as gmx_price
+        pdf, quote = gmx_price(frames[markets[0].market_info]), None
+        pdf["USDC"] = Decimal(1)
+    else:       # Deribit alone: hourly bars, the underlying as the only price
+        idx = pd.date_range(T0, periods=bars, freq="1h")
+        pdf, quote = pd.DataFrame({"ETH": [1650.0 + i for i in range(bars)]}, index=idx), None
+    if spec.get("price_kind") == "decimal":
+        pdf = pdf.map(lambda v: Decimal(str(v)))       # prepared once for all backtests: every cell is a Decimal already
+    else:
+        pdf = pdf.map(float)
+    config = StrategyConfig(assets=assets, markets=markets)
+    data = BacktestData(frames, pdf if quote is None else (pdf, quote))
+    return config, data, {"usdc": usdc, "weth": weth, "eth": eth, "osqth": osqth}, pdf
+
+
+def set_pristine(data, pdf):
+    global PRISTINE
+    import copy
+    from demeter.utils import to_decimal
+    PRISTINE = {"frames": {mi.name: copy.deepcopy(df) for mi, df in data.data.items()}, "price": pdf.map(to_decimal)}
+    for mi, df in data.data.items():        # DataFrame deep copies do not duplicate objects inside cells
+        for c in nested_columns(df):
+            PRISTINE["frames"][mi.name][c] = df[c].map(copy.deepcopy)
+
+
 def worker(spec_path):
-    """build configuration + data + strategies from the spec, run the real BacktestManager once"""
+    """build configuration + data + strategies from the spec, run the real BacktestManager once; with `direct` also run every
+    strategy alone with a plain Actuator on freshly built objects (no manager involved)"""
     global Scripted
     import logging
     logging.disable(logging.CRITICAL)
     spec = json.load(open(spec_path))
     sys.path.insert(0, os.environ.get("DEMETER_REPO", "/repo"))
-    from demeter import TokenInfo, MarketInfo, BacktestManager, BacktestConfig, BacktestData, StrategyConfig
-    from demeter.uniswap import UniLpMarket, UniV3Pool
-    from demeter.uniswap.helper import get_price_from_data
+    from demeter import BacktestManager, BacktestConfig, Actuator
     Scripted = make_strategy_class()
     Scripted.__qualname__ = "Scripted"
-    usdc, eth, weth = TokenInfo(name="usdc", decimal=6), TokenInfo(name="eth", decimal=18), TokenInfo(name="weth", decimal=18)
-    pool = UniV3Pool(usdc, eth, 0.05, usdc)
-    markets, frames = [], {}
-    assets = {usdc: Decimal(spec["usdc"]), eth: Decimal(spec["eth"])}
-    for k, name in enumerate(spec["markets"]):
-        if name == "aave":
-            from demeter import MarketTypeEnum
-            from demeter.aave import AaveV3Market
-            m = AaveV3Market(market_info=MarketInfo(name, MarketTypeEnum.aave_v3), tokens=[weth, usdc],
-                             risk_parameters_path=os.path.join(os.environ.get("DEMETER_REPO", "/repo"), "tests", "aave_risk_parameters", "demo.csv"))
-            for j, t in enumerate((weth, usdc)):
-                m.set_token_data(t, make_aave_data(spec["bars"], spec["data_seed"] + j))
-            frames[m.market_info] = m.data
-            assets[weth] = Decimal("5")
-        else:
-            m = UniLpMarket(MarketInfo(name), pool)
-            frames[m.market_info] = make_data(pool, m, spec["bars"], spec["data_seed"])   # same price path on every market: one price table
-        markets.append(m)
-    price = get_price_from_data(frames[markets[0].market_info], pool)
-    if weth in assets:
-        price[0][weth.name] = price[0][eth.name]
-    config = StrategyConfig(assets=assets, markets=markets)
-    data = BacktestData(frames, price)
+    config, data, tokens, pdf = build_world(spec)
+    set_pristine(data, pdf)
+    frames = data.data
     before = {mi.name: frame_hash(df) for mi, df in frames.items()}
-    before["price"] = frame_hash(price[0])
-    strategies = [Scripted(s["sid"], s["behaviour"], spec["out"], spec["markets"], {"usdc": usdc, "weth": weth}) for s in spec["strategies"]]
+    before["price"] = frame_hash(pdf)
+    strategies = [Scripted(s["sid"], s["behaviour"], spec["out"], spec["markets"], tokens, s.get("arg")) for s in spec["strategies"]]
     if spec.get("windows"):
         # exercise the branch that passes `data` as a task argument (no hook in /repo: the module's `platform` name is patched here)
         import types
         import demeter.core.backtest as bt
         bt.platform = types.SimpleNamespace(system=lambda: "Windows")
-    mgr = BacktestManager(config=config, data=data, strategies=strategies, backtest_config=BacktestConfig(), threads=spec["threads"])
+    mgr = BacktestManager(config=config, data=data, strategies=strategies, backtest_config=BacktestConfig(interval=spec.get("interval", "1min")),
+                          threads=spec["threads"])
     mgr.run()
     after = {mi.name: frame_hash(df) for mi, df in frames.items()}
-    after["price"] = frame_hash(price[0])
-    leftover = {m.market_info.name: len(m.positions) if hasattr(m, "positions") else len(m.supplies) for m in config.markets}
+    after["price"] = frame_hash(pdf)
+    leftover = {m.market_info.name: count_positions(m) for m in config.markets}
+    attached = [m.market_info.name for m in config.markets if m.broker is not None]
     with open(os.path.join(spec["out"], "_manager.json"), "w") as f:
-        json.dump({"data_intact": before == after, "config_positions_after": leftover}, f)
+        json.dump({"data_intact": before == after, "changed": sorted(k for k in before if before[k] != after[k]),
+                   "config_positions_after": leftover, "config_attached": attached}, f)
+    if spec.get("direct"):
+        for s in spec["strategies"]:
+            config, data, tokens, pdf = build_world(spec)
+            set_pristine(data, pdf)
+            a = Actuator()
+            for m in config.markets:
+                a.broker.add_market(m)
+                m.data = data.data[m.market_info]
+            for asset, amount in config.assets.items():
+                a.broker.set_balance(asset, amount)
+            a.strategy = Scripted(s["sid"] + "_direct", s["behaviour"], spec["out"], spec["markets"], tokens, s.get("arg"))
+            a.set_price(data.prices)
+            a.interval = spec.get("interval", "1min")
+            a.run(False)
 
 
 def edge_worker(spec_path):
@@ -270,17 +599,11 @@ def edge_worker(spec_path):
     logging.disable(logging.CRITICAL)
     spec = json.load(open(spec_path))
     sys.path.insert(0, os.environ.get("DEMETER_REPO", "/repo"))
-    from demeter import TokenInfo, MarketInfo, BacktestManager, BacktestConfig, BacktestData, StrategyConfig
-    from demeter.uniswap import UniLpMarket, UniV3Pool
-    from demeter.uniswap.helper import get_price_from_data
+    from demeter import BacktestManager, BacktestConfig
     Scripted = make_strategy_class()
     Scripted.__qualname__ = "Scripted"
-    usdc, eth = TokenInfo(name="usdc", decimal=6), TokenInfo(name="eth", decimal=18)
-    pool = UniV3Pool(usdc, eth, 0.05, usdc)
-    m = UniLpMarket(MarketInfo("uni_a"), pool)
-    df = make_data(pool, m, 6, 1)
-    config = StrategyConfig(assets={usdc: Decimal(1000), eth: Decimal(1)}, markets=[m])
-    data = BacktestData({m.market_info: df}, get_price_from_data(df, pool))
+    config, data, tokens, pdf = build_world({"markets": ["uni_a"], "bars": 6, "data_seed": 1, "usdc": "1000", "eth": "1"})
+    set_pristine(data, pdf)
     sc = spec["scenario"]
     n = 0 if sc == "no-strategies" else 2
     strategies = [Scripted(f"e{i}", "idle", spec["out"], ["uni_a"]) for i in range(n)]
@@ -301,9 +624,13 @@ def edge_worker(spec_path):
 EDGE = ["no-config", "no-data", "no-strategies", "too-many-threads", "zero-threads", "second-pooled-run"]
 
 
+def work_dir():
+    w = os.path.join(os.path.dirname(HERE), ".work")
+    return w if os.path.isdir(w) else None
+
+
 def run_edge(scenario):
-    work = os.path.join(os.path.dirname(HERE), ".work")
-    with tempfile.TemporaryDirectory(prefix="c19e_", dir=work if os.path.isdir(work) else None) as d:
+    with tempfile.TemporaryDirectory(prefix="c19e_", dir=work_dir()) as d:
         sp = os.path.join(d, "_spec.json")
         json.dump({"scenario": scenario, "out": d}, open(sp, "w"))
         subprocess.run([sys.executable, os.path.abspath(__file__), "--edge", sp], stdout=subprocess.PIPE, stderr=subprocess.PIPE, timeout=300)
@@ -312,18 +639,22 @@ def run_edge(scenario):
 
 
 # ============================================================================================== harness side
-def run_manager(spec, timeout=300):
+CONF_KEYS = ("markets", "bars", "data_seed", "usdc", "eth", "price_kind", "interval")
+
+
+def run_manager(spec, timeout=600):
     """one real BacktestManager.run() in a fresh interpreter; returns {sid: dump} and the manager-level record"""
-    with tempfile.TemporaryDirectory(prefix="c19_", dir=os.path.join(os.path.dirname(HERE), ".work") if os.path.isdir(os.path.join(os.path.dirname(HERE), ".work")) else None) as d:
+    with tempfile.TemporaryDirectory(prefix="c19_", dir=work_dir()) as d:
         spec = dict(spec, out=d)
         sp = os.path.join(d, "_spec.json")
         json.dump(spec, open(sp, "w"))
-        env = dict(os.environ)
-        p = subprocess.run([sys.executable, os.path.abspath(__file__), "--worker", sp], stdout=subprocess.PIPE, stderr=subprocess.PIPE, timeout=timeout, env=env)
+        p = subprocess.run([sys.executable, os.path.abspath(__file__), "--worker", sp], stdout=subprocess.PIPE, stderr=subprocess.PIPE,
+                           timeout=timeout, env=dict(os.environ))
         res = {}
         for s in spec["strategies"]:
-            fp = os.path.join(d, s["sid"] + ".json")
-            res[s["sid"]] = json.load(open(fp)) if os.path.exists(fp) else None
+            for sid in (s["sid"], s["sid"] + "_direct"):
+                fp = os.path.join(d, sid + ".json")
+                res[sid] = json.load(open(fp)) if os.path.exists(fp) else None
         mp = os.path.join(d, "_manager.json")
         mgr = json.load(open(mp)) if os.path.exists(mp) else None
         return res, mgr, p.returncode, p.stderr.decode(errors="replace")[-1500:]
@@ -332,9 +663,11 @@ def run_manager(spec, timeout=300):
 def diff_dump(a, b):
     if a is None or b is None:
         return "no result file (the run did not reach finalize())"
-    for k in ("notes", "positions", "assets", "actions", "columns", "data_columns"):
+    for k in ("notes", "found", "positions", "assets", "actions", "columns", "data_columns"):
         if a[k] != b[k]:
-            return f"{k}: {json.dumps(a[k])[:200]} vs alone {json.dumps(b[k])[:200]}"
+            x, y = json.dumps(a[k]), json.dumps(b[k])
+            i = next((t for t in range(min(len(x), len(y))) if x[t] != y[t]), 0)
+            return f"{k}: …{x[max(0, i - 60):i + 100]} vs alone …{y[max(0, i - 60):i + 100]}"
     if len(a["account"]) != len(b["account"]):
         return f"account history length {len(a['account'])} vs alone {len(b['account'])}"
     for i, (x, y) in enumerate(zip(a["account"], b["account"])):
@@ -344,108 +677,210 @@ def diff_dump(a, b):
     return None
 
 
-def base_spec(rng, markets, bars):
-    return {"markets": list(markets), "bars": bars, "data_seed": rng.randint(0, 10 ** 6), "usdc": "10000", "eth": "10"}
+def base_spec(rng, markets, bars=None, price_kind=None, interval=None):
+    if bars is None:
+        bars = {"deribit": 5, "uni_a+deribit": 64, "uni_sq+squeeth": 14, "gmx": 8}.get("+".join(markets), 12)
+    return {"markets": list(markets), "bars": bars, "data_seed": rng.randint(0, 10 ** 6), "usdc": "10000", "eth": "10",
+            "price_kind": price_kind or rng.choice(["float", "decimal"]), "interval": interval or "1min"}
 
 
-def fit(behaviours, markets):
-    """replace behaviours that need a market the configuration does not have"""
-    out = []
-    for b in behaviours:
-        if b == "add_b" and "uni_b" not in markets:
-            b = "aave_s" if "aave" in markets else "add1"
-        if b in ("aave_s", "aave_sb") and "aave" not in markets:
-            b = "add_b" if "uni_b" in markets else "add2"
-        out.append(b)
-    return out
+def conf_of(case):
+    return {k: case.get(k, "1min") if k == "interval" else case[k] for k in CONF_KEYS}
 
 
-def solo_key(case, behaviour):
-    return json.dumps([{k: case[k] for k in ("markets", "bars", "data_seed", "usdc", "eth")}, behaviour], sort_keys=True)
+def strategies_of(case):
+    return [{"sid": f"s{i}", "behaviour": b, "arg": a} for i, (b, a) in enumerate(zip(case["behaviours"], case["args"]))]
 
 
-def run_solo(case, behaviour):
-    spec = {k: case[k] for k in ("markets", "bars", "data_seed", "usdc", "eth")}
-    solo, _, _, _ = run_manager(dict(spec, threads=1, strategies=[{"sid": "solo", "behaviour": behaviour}]))
-    return solo["solo"]
+def solo_key(case, behaviour, arg):
+    return json.dumps([conf_of(case), behaviour, arg], sort_keys=True)
+
+
+def run_solo(case, behaviour, arg):
+    """the reference: the strategy alone, (a) through a manager with one strategy, (b) by a plain Actuator on fresh objects"""
+    res, _, _, err = run_manager(dict(conf_of(case), threads=1, direct=True, strategies=[{"sid": "solo", "behaviour": behaviour, "arg": arg}]))
+    return {"manager": res["solo"], "direct": res["solo_direct"], "err": err}
 
 
 def run_case(case):
-    """the manager run of one case: {markets, bars, data_seed, usdc, eth, threads, behaviours: [...], order}"""
-    strategies = [{"sid": f"s{i}", "behaviour": b} for i, b in enumerate(case["behaviours"])]
-    ordered = [strategies[i] for i in case["order"]]
-    spec = {k: case[k] for k in ("markets", "bars", "data_seed", "usdc", "eth")}
-    return run_manager(dict(spec, threads=case["threads"], strategies=ordered, windows=bool(case.get("windows"))))
+    """the manager run of one case: {markets, bars, data_seed, usdc, eth, price_kind, threads, behaviours: [...], args: [...], order}"""
+    strategies = strategies_of(case)
+    return run_manager(dict(conf_of(case), threads=case["threads"], strategies=[strategies[i] for i in case["order"]], windows=bool(case.get("windows"))))
+
+
+def effect(case, behaviour, arg):
+    """what a behaviour leaves behind, layer by layer — the projection the manager model is run on:
+    [positions on market 1, positions on market 2, columns added, frame values overwritten, order-book depth taken by its own in-place
+     writes, depth taken by the market's fill path, price cells overwritten]"""
+    names = case["markets"]
+    hours = case["bars"] if names == ["deribit"] else (case["bars"] + 59) // 60
+    pos = [0, 0]
+
+    def at(name, n=1):
+        if name in names and names.index(name) < 2:
+            pos[names.index(name)] += n
+    b = behaviour
+    if b in ("add1", "vandal"):
+        at(names[0])
+    elif b == "add2":
+        at(names[0], 2)
+    elif b == "add_b":
+        at("uni_b")
+    elif b in ("aave_s", "aave_sb"):
+        at("aave")
+    elif b in OPT:
+        at("deribit")
+    elif b == "sq_short":
+        at("squeeth")
+    elif b in ("glp_buy", "glp_round"):
+        at("gmx")
+    if b == "watcher" and "deribit" in names:
+        at("deribit")
+    has_nested = "deribit" in names
+    fill = {"opt_buy": 1, "opt_round": 2, "opt_twice": 2}.get(b, 0) * int(arg or 0) + (2 if b == "watcher" and has_nested else 0)
+    user = (4 * hours if b == "mut_nested" else 2 if b == "mut_status" else 0) if has_nested else 0
+    vals = 1 if b in ("vandal", "mut_data") else 0
+    return pos + [1 if b == "indicator" else 0, vals, user, fill, 1 if b == "mut_prices" else 0]
 
 
 def judge_case(ctx, case, outcome, solo_cache, model_reqs):
-    strategies = [{"sid": f"s{i}", "behaviour": b} for i, b in enumerate(case["behaviours"])]
+    strategies = strategies_of(case)
     ordered = [strategies[i] for i in case["order"]]
     res, mgr, rc, err = outcome
     path = "sequential" if len(ordered) == 1 or case["threads"] == 1 else ("pooled-args" if case.get("windows") else "pooled")
+    mix = "+".join(case["markets"])
     ok = True
     if rc != 0 or mgr is None:
-        ctx.violate(f"manager.{path}.crash", f"BacktestManager.run() failed (exit {rc}) with threads={case['threads']}, strategies {case['behaviours']}: {err[-300:]}", case)
+        ctx.violate(f"manager.{path}.crash", f"BacktestManager.run() failed (exit {rc}) with threads={case['threads']}, markets {mix}, strategies {case['behaviours']}: {err[-300:]}", case)
         ok = False
     elif not mgr["data_intact"]:
-        ctx.violate(f"manager.{path}.data-modified", f"a run modified the manager's BacktestData frames (strategies {case['behaviours']})", case)
+        ctx.violate(f"manager.{path}.data-modified:{'price' if mgr['changed'] == ['price'] else 'frames'}",
+                    f"a run modified the manager's BacktestData ({mgr['changed']}; markets {mix}, prices {case['price_kind']}, strategies {case['behaviours']})", case)
         ok = False
-    elif any(mgr["config_positions_after"].values()):
-        ctx.violate(f"manager.{path}.config-modified", f"the configured market objects hold positions after run(): {mgr['config_positions_after']}", case)
+    elif any(mgr["config_positions_after"].values()) or mgr["config_attached"]:
+        ctx.violate(f"manager.{path}.config-modified", f"the configured market objects were used by a backtest: positions {mgr['config_positions_after']}, "
+                    f"attached to a broker {mgr['config_attached']}", case)
         ok = False
     for s in strategies:
-        d = diff_dump(res.get(s["sid"]), solo_cache[solo_key(case, s["behaviour"])])
+        solo = solo_cache[solo_key(case, s["behaviour"], s["arg"])]
+        # reference: the plain-Actuator run; if the manager changes this strategy even when it is alone (reported by judge_solo),
+        # interference is still looked for, against the manager's own solo run
+        ref = solo["direct"] if diff_dump(solo["manager"], solo["direct"]) is None else solo["manager"]
+        d = diff_dump(res.get(s["sid"]), ref)
         if d is not None:
             pos = [x["sid"] for x in ordered].index(s["sid"])
             before = [x["behaviour"] for x in ordered[:pos]]
             ctx.violate(f"manager.{path}.interference",
-                        f"threads={case['threads']}: strategy '{s['behaviour']}' run after {before} differs from running it alone — {d}", case)
+                        f"markets {mix}, prices {case['price_kind']}, threads={case['threads']}: strategy '{s['behaviour']}' run after {before} differs from running it alone — {d}", case)
             ok = False
     kinds = "+".join(sorted(case["behaviours"]))
-    ctx.case(f"{path}:t{case['threads']}:n{len(strategies)}:m{len(case['markets'])}:{kinds}:{case.get('order_kind', 'id')}:{'ok' if ok else 'bad'}", case)
-    # the manager model on the position-count projection
+    ctx.case(f"{path}:t{case['threads']}:n{len(strategies)}:{mix}:{case['price_kind']}:{case.get('interval', '1min')}:{kinds}:{case.get('order_kind', 'id')}:{'ok' if ok else 'bad'}", case)
+    # the manager model on the projection "what did each strategy find"
     if all(res.get(s["sid"]) is not None for s in strategies):
-        second = case["markets"][1] if len(case["markets"]) > 1 else "uni_b"
-        observed = [[len(res[s["sid"]]["positions"].get(m, [])) for m in ("uni_a", second)] + [res[s["sid"]]["data_columns"]["uni_a"].count("sig")]
-                    for s in ordered]
+        observed = []
+        for s in ordered:
+            f = res[s["sid"]]["found"]
+            p = (f["pos"] + [0])[:2]
+            observed.append([p[0] > 0, p[1] > 0, bool(f["link"]), f["cols"] > 0, f["vals"] > 0, f["cells"], f["prices"] > 0])
         model_reqs.append(({"fn": "manager", "threads": case["threads"], "attach": "current", "cow": COW, "windows": bool(case.get("windows")),
-                            "effects": [list(POS_EFFECT[s["behaviour"]]) for s in ordered]}, observed, case))
+                            "priceDec": case["price_kind"] == "decimal", "linked": "squeeth" in case["markets"],
+                            "effects": [effect(case, s["behaviour"], s["arg"]) for s in ordered]}, observed, case))
+
+
+def judge_solo(ctx, key, solo):
+    conf, behaviour, arg = json.loads(key)
+    case = dict(conf, threads=1, behaviours=[behaviour], args=[arg], order=[0], order_kind="id")
+    d = diff_dump(solo["manager"], solo["direct"])
+    if solo["direct"] is None:
+        ctx.disagree(f"reference run (plain Actuator) of '{behaviour}' on {conf['markets']} produced no result: {solo['err'][-300:]}", case)
+    elif d is not None:
+        ctx.violate("manager.solo-differs-from-actuator",
+                    f"markets {'+'.join(conf['markets'])}: strategy '{behaviour}' run alone by BacktestManager differs from the same backtest run by a plain Actuator — {d}", case)
+    ctx.case(f"solo:{'+'.join(conf['markets'])}:{conf['price_kind']}:{behaviour}:{'ok' if d is None else 'bad'}", case)
+
+
+def with_args(rng, case):
+    """sizes of the option trades: exactly the best ask level, more than it, or small"""
+    s1 = best_ask_size(case["data_seed"])
+    case["args"] = [rng.choice([s1, s1, s1 + 2, 2, 1]) if b in OPT else None for b in case["behaviours"]] if "args" not in case else case["args"]
+    return case
 
 
 def gen_cases(ctx):
     rng = ctx.rng
     cases = []
-    # fixed: the witness of DESIGN §1.8 (an idle strategy after one that adds liquidity), every thread count
+
+    def fixed(markets, threads, behaviours, args=None, price_kind=None, order=None, kind="id", bars=None, windows=False, base=None):
+        base = base or base_spec(rng, markets, bars, price_kind)
+        c = dict(base, threads=threads, behaviours=list(behaviours), order=order or list(range(len(behaviours))), order_kind=kind, windows=windows)
+        if args is not None:
+            s1 = best_ask_size(c["data_seed"])
+            c["args"] = [None if a is None else s1 + a for a in args]       # sizes relative to the best ask level
+        cases.append(with_args(rng, c))
+        return base
+    # the witness of DESIGN §1.8 (an idle strategy after one that adds liquidity), every thread count
     for threads in (1, 2, 4):
-        cases.append(dict(base_spec(rng, MARKET_SETS[0], 12), threads=threads, behaviours=["add1", "idle"], order=[0, 1], order_kind="id"))
-    cases.append(dict(base_spec(rng, MARKET_SETS[1], 12), threads=1, behaviours=["add_b", "add1", "idle"], order=[0, 1, 2], order_kind="id"))
-    cases.append(dict(base_spec(rng, MARKET_SETS[2], 12), threads=1, behaviours=["aave_sb", "idle", "aave_s"], order=[0, 1, 2], order_kind="id"))
+        fixed(MARKET_SETS[0], threads, ["add1", "idle"])
+    fixed(MARKET_SETS[1], 1, ["add_b", "add1", "idle"])
+    fixed(MARKET_SETS[2], 1, ["aave_sb", "idle", "aave_s"])
     # a strategy that adds an indicator column, followed by one that would act on such a column: the data frames are shared too
     for threads in (1, 2):
-        cases.append(dict(base_spec(rng, MARKET_SETS[0], 12), threads=threads, behaviours=["indicator", "follower", "follower"], order=[0, 1, 2], order_kind="id"))
+        fixed(MARKET_SETS[0], threads, ["indicator", "follower", "follower"])
     # a strategy that overwrites values of its data frame in place, followed by strategies whose result depends on those values
     for threads in (1, 2):
-        cases.append(dict(base_spec(rng, MARKET_SETS[0], 12), threads=threads, behaviours=["vandal", "add1", "indicator", "add2"], order=[0, 1, 2, 3], order_kind="id"))
+        fixed(MARKET_SETS[0], threads, ["vandal", "add1", "indicator", "add2"])
     # the branch taken on Windows: `data` travels as a task argument
-    cases.append(dict(base_spec(rng, MARKET_SETS[1], 12), threads=2, windows=True, behaviours=["add1", "indicator", "follower", "add_b"], order=[0, 1, 2, 3], order_kind="id"))
+    fixed(MARKET_SETS[1], 2, ["add1", "indicator", "follower", "add_b"], windows=True)
     # all orders of one three-strategy set, sequential and pooled
-    base = base_spec(rng, MARKET_SETS[2], 12)
+    base = base_spec(rng, MARKET_SETS[2])
     for threads in (1, 2):
         for p in itertools.permutations(range(3)):
-            cases.append(dict(base, threads=threads, behaviours=["add1", "aave_sb", "idle"], order=list(p), order_kind="perm"))
-    bases = [base_spec(rng, MARKET_SETS[k % 3], [12, 20, 40][(k // 3) % 3]) for k in range(ctx.scale(5, 18))]
-    for _ in range(ctx.scale(12, 100)):
+            fixed(None, threads, ["add1", "aave_sb", "idle"], order=list(p), kind="perm", base=base)
+    # Deribit: several strategies take the same option in the same hourly bar; sizes exhaust / cross the best level (both price kinds, both orders)
+    for pk in ("float", "decimal"):
+        base = base_spec(rng, ["deribit"], price_kind=pk)
+        fixed(None, 1, ["opt_buy", "opt_buy"], args=[0, -1], base=base)
+        fixed(None, 1, ["opt_buy", "opt_buy"], args=[0, -1], order=[1, 0], kind="rev", base=base)
+    fixed(["deribit"], 1, ["opt_buy", "opt_round", "opt_twice", "watcher"], args=[2, 0, -1, None])
+    fixed(["deribit"], 2, ["opt_buy", "opt_round", "opt_twice", "watcher"], args=[2, 0, -1, None])
+    # … and strategies that write into the order-book lists nested in cells, through self.data and through the status objects
+    for threads in (1, 2):
+        fixed(["deribit"], threads, ["mut_nested", "opt_buy", "watcher"], args=[None, 0, None])
+    fixed(["deribit"], 1, ["mut_status", "opt_buy", "watcher"], args=[None, 0, None])
+    fixed(["deribit"], 1, ["mut_data", "opt_buy", "watcher"], args=[None, 0, None])
+    fixed(["uni_a", "deribit"], 1, ["opt_buy", "add1", "mut_nested", "opt_buy"], args=[0, None, None, 2])
+    fixed(["uni_a", "deribit"], 2, ["mut_status", "opt_round", "watcher"], args=[None, 0, None])
+    # a strategy that writes into self.prices, float frame and all-Decimal frame, followed by strategies valued with those prices
+    for pk in ("float", "decimal"):
+        fixed(["uni_a"], 1, ["mut_prices", "buy", "add1"], price_kind=pk)
+        fixed(["deribit"], 1, ["mut_prices", "opt_buy", "idle"], args=[None, 0, None], price_kind=pk)
+    fixed(["uni_a"], 2, ["mut_prices", "watcher", "sell"], price_kind="decimal")
+    fixed(["uni_a", "uni_b"], 1, ["mut_data", "add1", "watcher", "add_b"])
+    fixed(["uni_a", "aave"], 1, ["mut_status", "mut_assets", "watcher", "aave_s"])
+    # Squeeth refers to its oSQTH pool market: both are configured markets
+    fixed(["uni_sq", "squeeth"], 1, ["sq_buy", "sq_short", "idle", "mut_data"], price_kind="decimal")
+    fixed(["uni_sq", "squeeth"], 2, ["sq_short", "sq_buy", "watcher"])
+    fixed(["gmx"], 1, ["glp_buy", "glp_round", "mut_data", "watcher"])
+    fixed(["gmx"], 2, ["glp_round", "mut_prices", "glp_buy"], price_kind="decimal")
+    # a coarser interval: every backtest resamples its frames and its price frame
+    fixed(None, 1, ["add1", "mut_data", "watcher", "indicator"], base=base_spec(rng, ["uni_a"], 40, interval="5min"))
+    fixed(None, 2, ["buy", "mut_prices", "idle"], base=base_spec(rng, ["uni_a", "uni_b"], 40, "decimal", interval="5min"))
+    bases = [base_spec(rng, MARKET_SETS[k % len(MARKET_SETS)], None if k % len(MARKET_SETS) > 2 else [12, 20, 40][(k // 7) % 3],
+                       interval="5min" if k % len(MARKET_SETS) < 2 and (k // 7) % 3 == 2 else None)
+             for k in range(ctx.scale(7, 28))]
+    for _ in range(ctx.scale(14, 120)):
         n = rng.choice([1, 2, 2, 3, 3, 4])
         base = rng.choice(bases)            # a small pool of configurations: solo runs are shared between cases
-        beh = fit([rng.choice(BEHAVIOURS) for _ in range(n)], base["markets"])
+        beh = [rng.choice(applicable(base["markets"])) for _ in range(n)]
         orders = [("id", list(range(n)))]
         if n > 1:
             orders.append(("rev", list(range(n - 1, -1, -1))))
         if n > 2 and ctx.thorough:
             orders += [("perm", list(p)) for p in itertools.permutations(range(n))][:24]
+        proto = with_args(rng, dict(base, behaviours=beh))
         for threads in ((1, 2, 4) if ctx.thorough else (1, rng.choice([2, 4]))):
             for kind, order in (orders if ctx.thorough else orders[:1] + orders[1:2] * (threads == 1)):
-                cases.append(dict(base, threads=threads, behaviours=beh, order=order, order_kind=kind, windows=threads > 1 and rng.random() < 0.2))
+                cases.append(dict(proto, threads=threads, order=order, order_kind=kind, windows=threads > 1 and rng.random() < 0.2))
     return cases
 
 
@@ -455,14 +890,16 @@ def run(ctx):
     cases = gen_cases(ctx)
     keys = {}
     for c in cases:
-        for b in c["behaviours"]:
-            keys.setdefault(solo_key(c, b), (c, b))
+        for b, a in zip(c["behaviours"], c["args"]):
+            keys.setdefault(solo_key(c, b, a), (c, b, a))
     # every solo run and every manager run is its own OS process: overlap them, then judge in a fixed order
     with ThreadPoolExecutor(max_workers=min(12, os.cpu_count() or 2)) as ex:
         solos = list(ex.map(lambda kv: run_solo(*kv), keys.values()))
         outcomes = list(ex.map(run_case, cases))
         edges = list(ex.map(run_edge, EDGE))
     solo_cache = dict(zip(keys.keys(), solos))
+    for k, s in solo_cache.items():
+        judge_solo(ctx, k, s)
     model_reqs = []
     for c, o in zip(cases, outcomes):
         judge_case(ctx, c, o, solo_cache, model_reqs)
@@ -477,25 +914,41 @@ def run(ctx):
         elif ctx.driver_ok:
             runs = []
             for k, _ in enumerate(e["outcome"]):
-                req = {"fn": "manager", "threads": e["threads"], "attach": "current", "effects": [[0, 0, 0]] * e["n"], "cpu": e["cpu"],
+                req = {"fn": "manager", "threads": e["threads"], "attach": "current", "effects": [[0] * 7] * e["n"], "cpu": e["cpu"],
                        "ctxSet": k > 0, "cfgNone": sc == "no-config", "dataNone": sc == "no-data"}
                 runs.append(driver_json([req], exe="driver_metrics")[0]["outcome"])
             if runs != e["outcome"]:
                 ctx.disagree(f"edge scenario {sc}: BacktestManager.run() -> {e['outcome']}, model -> {runs}", {"edge": sc})
     if ctx.driver_ok and model_reqs:
         answers = driver_json([r[0] for r in model_reqs], exe="driver_metrics")
-        for (req, observed, case), a in zip(model_reqs, answers):
+        # the same with every task on one worker: where the two predictions differ, the answer depends on the OS's scheduling
+        # (impossible with the current code, by C19_pooled_isolated) and only the violation is reported, not a disagreement
+        one = driver_json([dict(r[0], oneWorker=True) for r in model_reqs], exe="driver_metrics")
+        for (req, observed, case), a, a1 in zip(model_reqs, answers, one):
             if "error" in a:
                 ctx.disagree(f"driver error: {a['error']}", case)
-            elif [[int(x) for x in row] for row in a["positions"]] != observed:
-                ctx.disagree(f"manager model predicts final position counts {a['positions']}, implementation has {observed} (threads {req['threads']})", case)
+                continue
+            if a.get("found") != a1.get("found"):
+                ctx.count("schedule_dependent_predictions")
+                continue
+            predicted = [[int(r[0]) > 0, int(r[1]) > 0, bool(r[2]), int(r[3]) > 0, int(r[4]) > 0, str(Fraction(r[5])), int(r[6]) > 0] for r in a["found"]]
+            if predicted != observed:
+                ctx.disagree(f"manager model predicts that the strategies find [positions on market 1, on market 2, market references intact, columns added, values overwritten, depth taken, prices overwritten] = {predicted}, "
+                             f"the implementation's strategies found {observed} (threads {req['threads']})", case)
 
 
 def replay(ctx, case) -> bool:
     from common import Ctx
     sub = Ctx(ctx.prop, ctx.tier, ctx.seed, False)
-    solo_cache = {solo_key(case, b): run_solo(case, b) for b in set(case["behaviours"])}
-    judge_case(sub, case, run_case(case), solo_cache, [])
+    if "args" not in case:
+        case = dict(case, args=[None] * len(case["behaviours"]))
+    case.setdefault("price_kind", "float")
+    case.setdefault("interval", "1min")
+    solo_cache = {solo_key(case, b, a): run_solo(case, b, a) for b, a in set(zip(case["behaviours"], case["args"]))}
+    for k, s in solo_cache.items():
+        judge_solo(sub, k, s)
+    if len(case["behaviours"]) > 1 or not sub.violations:
+        judge_case(sub, case, run_case(case), solo_cache, [])
     for v in sub.violations:
         print("  ", v["key"], v["what"])
     return not sub.violations
